@@ -362,10 +362,7 @@ class History(object):
                 got = ask(server, self.root, req)
                 self.fs.hook = None
                 nio = self.fs.calls - io0
-                if mid and not landed['done']:
-                    # the request made fewer I/O calls than planned: the save happens right after it
-                    self.apply_edit(mid['edit'])
-                    any_edit = True
+                deferred = mid['edit'] if (mid and not landed['done']) else None
                 self.loaded = set(server.project._module_cache)
                 if landed['done']:
                     # either version, or a mixture, is acceptable for the request an edit landed in
@@ -393,6 +390,10 @@ class History(object):
                         'op_index': oi})
                     break
                 self.edits_since_request = 0
+                if deferred is not None:
+                    # the request made fewer I/O calls than planned: the save happens right after it
+                    self.apply_edit(deferred)
+                    any_edit = True
             if self.fs.calls == 0:
                 raise RuntimeError('harness: the I/O wrappers saw no call')
         finally:
